@@ -123,6 +123,29 @@ def stack_vs_peer(rng):
     return bad, desc
 
 
+def grant_grid_case(rng):
+    """the responder's grants on a grid of (own maximum, RTS limit, message size) around the boundaries: every CTS grants at most
+    min(RTS limit, own maximum, packets remaining) — incl. the RTS limit 255 ('no limit') with a short message"""
+    bad = []
+    for own_max in (1, 3, 5, 255):
+        for limit in (1, 4, 255):
+            for size in (9, 22, 64):
+                sc = net21.Scenario(C.REPO, rng.getrandbits(32), 1, maxcmdt=[own_max], addrs=[0x21])
+                peer = net21.RefPeer21(sc, 0x55, rng, reply_latency=1000)
+                data = rand_payload(rng, size)
+                peer.originate(0x21, 0xD000, data, limit=limit, dt_gap=0)
+                net21.run_with_peer(sc, peer, 5_000_000 + ((len(data) + 6) // 7) * (peer.lat + 52000) * 2)
+                n = (len(data) + 6) // 7
+                for (t, nn, nxt) in peer.tx['cts']:
+                    if nn > limit or nn > own_max or nn > n - (nxt - 1):
+                        bad.append(f"CTS grants {nn} (RTS limit {limit}, own maximum {own_max}, remaining {n - (nxt - 1)}, {size}-byte message)")
+                if [d for d in sc.payload_deliveries()] != [(0, 0xD000, 0x55, data)]:
+                    bad.append(f"responder did not deliver the {size}-byte message (RTS limit {limit}, own maximum {own_max})")
+                if bad:
+                    return bad, dict(role='responder', kind='grant-grid', own_max=own_max, rts_limit=limit, size=size)
+    return bad, dict(role='responder', kind='grant-grid')
+
+
 def fd_bam_pacing(rng):
     """J1939-22: an otherwise idle stack broadcasting over FD.TP: consecutive FD.TP.DT frames of the session are at least
     the configured interval and at most interval + scheduling latency apart (the background thread sleeps exactly as
@@ -198,7 +221,7 @@ def oracle(ctx, full):
     findings, evals, distinct, samples = [], 0, set(), []
     for k in range(n):
         sub = random.Random(rng.getrandbits(48))
-        bad, desc = fd_bam_pacing(sub) if k % 6 == 5 else (fd_flow_case(sub) if k % 6 == 3 else (stack_vs_stack(sub) if k % 2 == 0 else stack_vs_peer(sub)))
+        bad, desc = grant_grid_case(sub) if k == 1 else fd_bam_pacing(sub) if k % 6 == 5 else (fd_flow_case(sub) if k % 6 == 3 else (stack_vs_stack(sub) if k % 2 == 0 else stack_vs_peer(sub)))
         evals += 1
         distinct.add(C.struct_hash(desc))
         if len(samples) < 2:
@@ -210,7 +233,7 @@ def oracle(ctx, full):
                 rule="even cases: 2-3 real stacks, windows 1..255 per stack, BAM interval default/10..190 ms, CMDT interval none/1..50 ms, "
                      "latencies {0,1us,1ms,5ms}, scheduling latency <= 2 ms, bus trace checked against the flow-control rules and delivery; odd "
                      "cases: one real stack against the reference responder (windows, 0-3 holds, reply latency <= 150 ms) or the reference "
-                     "originator (RTS limit 1..255); every sixth case: J1939-22 connection mode with windows 1..255 and a packet interval shorter or longer than the round trip (no segment beyond the grants seen so far, no over-grant); every sixth case: J1939-22 broadcast pacing (interval default/10..190 ms) on an idle stack whose thread sleeps as it asked; distinct = distinct scenario descriptions")
+                     "originator (RTS limit 1..255); once per run a grid of (own maximum 1/3/5/255, RTS limit 1/4/255, 9/22/64 bytes) for the responder's grants; every sixth case: J1939-22 connection mode with windows 1..255 and a packet interval shorter or longer than the round trip (no segment beyond the grants seen so far, no over-grant); every sixth case: J1939-22 broadcast pacing (interval default/10..190 ms) on an idle stack whose thread sleeps as it asked; distinct = distinct scenario descriptions")
 
 
 def replay(ctx, path):
